@@ -52,6 +52,10 @@ class Ptr:
         self.off = off
 
 
+class NativeCrash(Exception):
+    pass
+
+
 class Path:
     def __init__(self, res, bufs, ex):
         self.res = res
@@ -160,7 +164,34 @@ class Harness:
         return self._native
 
     def native(self, fname, args):
-        """call the g++-built entry point with concrete values; returns (ret, {buf name: list})"""
+        """call the g++-built entry point in a forked child (so that aborts / segfaults of the real code are observed,
+        not suffered); returns (ret, {buf name: list}) or raises NativeCrash"""
+        import pickle
+        self.native_lib()
+        r, w = os.pipe()
+        pid = os.fork()
+        if pid == 0:
+            code = 0
+            try:
+                os.close(r)
+                res = self._native_call(fname, args)
+                with os.fdopen(w, 'wb') as f:
+                    pickle.dump(res, f)
+            except BaseException:
+                code = 97
+            finally:
+                os._exit(code)
+        os.close(w)
+        with os.fdopen(r, 'rb') as f:
+            data = f.read()
+        _, status = os.waitpid(pid, 0)
+        if os.WIFSIGNALED(status):
+            raise NativeCrash('native %s died with signal %d' % (fname, os.WTERMSIG(status)))
+        if os.WEXITSTATUS(status) != 0 or not data:
+            raise NativeCrash('native %s exited with status %d' % (fname, os.WEXITSTATUS(status)))
+        return pickle.loads(data)
+
+    def _native_call(self, fname, args):
         lib = self.native_lib()
         f = getattr(lib, fname)
         cargs = []
